@@ -42,8 +42,8 @@ CHECKS = {
          "Trusted: refmodel::normalize, the raw hash itself as oracle.",
          "DESIGN.md §4 C07"),
  "C08": ("E-ENUM", "model_checking",
-         "exhaustive enumeration of all string pairs over small alphabets up to a length bound plus structured full-length families against a textbook DP",
-         "ALL ordered pairs over alphabets of size 2 / 3 / 4 to length 11 / 8 / 5 (thorough 12 / 9 / 6) and two-run, periodic, shifted, truncated and single-edit families at length up to 64 (carry chains through bit 63), both argument orders, through the position array and the comparison-target accessors.",
+         "exhaustive enumeration of all string pairs over small alphabets up to a length bound plus structured full-length families against a textbook DP, and explicit-state search of the kernel automaton (for fixed a, all b over a small alphabet up to 64 symbols, state = the kernel's state observed through the real distances of all prefixes of a)",
+         "ALL ordered pairs over alphabets of size 2 / 3 / 4 to length 11 / 8 / 5 (thorough 12 / 9 / 6) and two-run, periodic, shifted, truncated and single-edit families at length up to 64 (carry chains through bit 63), both argument orders, through the position array and the comparison-target accessors; closure: 8 (thorough 18) fixed strings a x ALL b in sigma^<=64 (65 k / 6.9 M states, every prefix of a checked on every transition).",
          "Trusted: refmodel::lcs_distance.  Unstructured long strings over large alphabets are outside the claim.",
          "DESIGN.md §4 C08"),
  "C09": ("E-ENUM", "model_checking",
